@@ -731,6 +731,14 @@ func OpenWith(path string, vLogs []appendable.Appendable, txLog, cLog appendable
 		}
 	}
 
+	if !opts.ReadOnly {
+		err = store.discardStaleBinaryLinking(committedTxID, precommittedTxID)
+		if err != nil {
+			store.Close()
+			return nil, fmt.Errorf("binary-linking validation failed: %w", err)
+		}
+	}
+
 	if store.aht.Size() == precommittedTxID {
 		store.logger.Infof("binary-linking up to date at '%s'", store.path)
 	} else {
@@ -1241,6 +1249,51 @@ func (s *ImmuStore) precommittedAlh() (uint64, [sha256.Size]byte) {
 	defer s.commitStateRWMutex.RUnlock()
 
 	return s.inmemPrecommittedTxID, s.inmemPrecommittedAlh
+}
+
+// discardStaleBinaryLinking removes the entries of the binary-linking that can not be
+// validated against the transactions found in the tx log. Resizing the binary-linking is
+// only logical and entries are overwritten in place: after precommitted transactions were
+// discarded, entries of transactions that are no longer part of the log (or only part of
+// them) may be found when the store is re-opened, even if the size matches.
+// Entries of transactions that are not yet committed are always rebuilt. For committed
+// ones, each transaction holds the root of the binary-linking it was linked to (BlRoot at
+// BlTxID), which is used to find the latest valid entry. Removed entries are rebuilt from
+// the tx log.
+func (s *ImmuStore) discardStaleBinaryLinking(committedTxID, precommittedTxID uint64) error {
+	txID := committedTxID
+	if precommittedTxID > committedTxID {
+		txID++
+	}
+
+	for txID > 0 && s.aht.Size() > 0 {
+		hdr, err := s.ReadTxHeader(txID, true, false)
+		if err != nil {
+			return err
+		}
+
+		if hdr.BlTxID == 0 {
+			break
+		}
+
+		if hdr.BlTxID <= s.aht.Size() {
+			blRoot, err := s.aht.RootAt(hdr.BlTxID)
+			if err != nil {
+				return err
+			}
+
+			if blRoot == hdr.BlRoot {
+				// entries following BlTxID are not covered by any root, they are rebuilt
+				return s.aht.ResetSize(hdr.BlTxID)
+			}
+
+			s.logger.Infof("discarding stale binary-linking entries since tx %d at '%s'", hdr.BlTxID, s.path)
+		}
+
+		txID--
+	}
+
+	return s.aht.ResetSize(0)
 }
 
 func (s *ImmuStore) syncBinaryLinking() error {
